@@ -9,9 +9,9 @@ import (
 	"grog/internal/hashing"
 	"grog/internal/maps"
 	"grog/internal/model"
-	"grog/internal/verifhook"
 	"grog/internal/output/handlers"
 	"grog/internal/proto/gen"
+	"grog/internal/verifhook"
 	"grog/internal/worker"
 	"runtime"
 	"slices"
